@@ -196,7 +196,12 @@ func normalizeStatement(
 
 	normalizeChildren := func(children []*sysl.Statement, parentIndex []int) error {
 		for i, child := range children {
-			err := normalizeStatement(ctx, s, app, ep, child, append(parentIndex, i))
+			// Each child needs its own copy of the path: append alone can reuse parentIndex's backing array, which
+			// makes siblings share (and overwrite) one path.
+			childIndex := make([]int, len(parentIndex)+1)
+			copy(childIndex, parentIndex)
+			childIndex[len(parentIndex)] = i
+			err := normalizeStatement(ctx, s, app, ep, child, childIndex)
 			if err != nil {
 				return err
 			}
